@@ -2,7 +2,7 @@ import Proofs.ChainRing
 /-! Deadlock freedom, termination measure and final content of the Chain ring. Core Lean only. -/
 namespace KV.Chain
 
-variable {b m : Nat} {data : List Nat} {c : Chain}
+variable [StageFn] {b m : Nat} {data : List Nat} {c : Chain}
 
 theorem sumTo_zero (k : Nat) : sumTo (fun _ => 0) k = 0 := by
   induction k with
@@ -228,7 +228,7 @@ def mainRank (b m : Nat) : MPC → Nat
 def chainMeasure (b m : Nat) (data : List Nat) (c : Chain) : Nat :=
   mainRank b m c.main + sumTo (fun i => rank data.length (c.st i)) (m + 1)
 
-theorem stageStep_char (hm : c.m = m) (hd : c.data = data) {i : Nat} {c' : Chain}
+theorem stageStep_char (hm : c.m = m) (hd : c.data = data) (htr : c.tr = StageFn.tr) {i : Nat} {c' : Chain}
     (hs : c.stageStep i = some c') :
     ∃ q' s', c' = { c with q := q', st := upd c.st i s' } ∧
       (((c.st i).pc = .start ∧ s' = { c.st i with pc := .init })
@@ -249,7 +249,7 @@ theorem stageStep_char (hm : c.m = m) (hd : c.data = data) {i : Nat} {c' : Chain
     | some pr =>
       obtain ⟨x, rest⟩ := pr
       simp only [hq] at hs; cases hs
-      have e := loopTest_eq_init (c := c) (i := i) hm hd hpc x
+      have e := loopTest_eq_init (c := c) (i := i) hm hd htr hpc x
       simp only [hpc] at e
       rw [e]
       exact ⟨_, _, rfl, Or.inr (Or.inl ⟨Or.inl hpc, x, rest, fifoPop_some hq, rfl⟩)⟩
@@ -264,7 +264,7 @@ theorem stageStep_char (hm : c.m = m) (hd : c.data = data) {i : Nat} {c' : Chain
       cases x with
       | poison => simp [afterConsume, hpc]
       | val v =>
-        have e := loopTest_eq_inc (c := c) (i := i) hm hd hpc v
+        have e := loopTest_eq_inc (c := c) (i := i) hm hd htr hpc v
         simp only [hpc] at e
         simp only []
         rw [e]
@@ -308,7 +308,7 @@ theorem chain_measure_step (h : RInv b m data c) {tid : Nat} {c' : Chain} (hs : 
     by_cases hi' : i ≤ c.m
     · rw [if_pos hi'] at hs
       have hi : i ≤ m := h.hm ▸ hi'
-      obtain ⟨q', s', rfl, hcase⟩ := stageStep_char h.hm h.hd hs
+      obtain ⟨q', s', rfl, hcase⟩ := stageStep_char h.hm h.hd h.htr hs
       have hsum := sumTo_upd (fun j => rank data.length (c.st j)) (i := i) (k := m + 1)
         (rank data.length s') (by omega)
       have hfun : (fun j => rank data.length (upd c.st i s' j))
@@ -382,9 +382,10 @@ def passOf (m i : Nat) : Item → Item
   | .val v => .val (if i = m then v else xform (i + 1) v)
   | .poison => .poison
 
-theorem outFrom_eq_map {i : Nat} (hi : i ≠ 0) (k : Nat) (l : List Item) :
-    outFrom m data i k l = l.map (passOf m i) := by
-  induction l generalizing k with
+/-- with the default stage functions (`xform`) a pass-through stage is a `map` -/
+theorem outFrom_eq_map {i : Nat} (hi : i ≠ 0) (hdef : ∀ i hist v, StageFn.tr i hist v = xform (i + 1) v)
+    (pre l : List Item) : outFrom m data i pre l = l.map (passOf m i) := by
+  induction l generalizing pre with
   | nil => rfl
   | cons a l ih =>
     simp only [outFrom, List.map_cons, ih]
@@ -392,21 +393,21 @@ theorem outFrom_eq_map {i : Nat} (hi : i ≠ 0) (k : Nat) (l : List Item) :
     cases a with
     | poison => rfl
     | val v =>
-      simp only [outOf, bodyP, hi, if_false, passOf]
+      simp only [outOf, bodyP, hi, if_false, passOf, hdef]
       by_cases e : i = m <;> simp [e]
 
-theorem src_out_vals (l : List Item) (k : Nat) (hl : Item.poison ∉ l) (hk : k + l.length ≤ data.length) :
-    outFrom m data 0 k l = ((data.drop k).take l.length).map Item.val := by
-  induction l generalizing k with
+theorem src_out_vals (l pre : List Item) (hl : Item.poison ∉ l) (hk : pre.length + l.length ≤ data.length) :
+    outFrom m data 0 pre l = ((data.drop pre.length).take l.length).map Item.val := by
+  induction l generalizing pre with
   | nil => simp [outFrom]
   | cons a l ih =>
-    have hk' : k < data.length := by simp at hk; omega
+    have hk' : pre.length < data.length := by simp at hk; omega
     cases a with
     | poison => simp at hl
     | val v =>
       have hl' : Item.poison ∉ l := fun e => hl (List.mem_cons_of_mem _ e)
-      have := ih (k + 1) hl' (by simp at hk; omega)
-      simp only [outFrom, this, List.length_cons]
+      have := ih (pre ++ [Item.val v]) hl' (by simp at hk ⊢; omega)
+      simp only [outFrom, this, List.length_cons, List.length_append, List.length_nil, Nat.zero_add]
       rw [List.drop_eq_getElem_cons hk', List.take_succ_cons, List.map_cons]
       congr 1
       simp [outOf, bodyP, List.getElem?_eq_getElem hk']
@@ -424,7 +425,7 @@ theorem RInv.source_out (h : RInv b m data c) (hf : (c.st 0).pc = .finished) :
   have hL : (c.st 0).inp.length = data.length + 1 := by
     apply Classical.byContradiction
     intro hne
-    have := src_out_vals (m := m) (data := data) (c.st 0).inp 0 hsrc (by omega)
+    have := src_out_vals (m := m) (data := data) (c.st 0).inp [] hsrc (by simp; omega)
     rw [hr, this] at hp
     obtain ⟨a, _, ha⟩ := List.mem_map.mp hp
     cases ha
@@ -434,12 +435,12 @@ theorem RInv.source_out (h : RInv b m data c) (hf : (c.st 0).pc = .finished) :
     ⟨(c.st 0).inp.dropLast, (c.st 0).inp.getLast hne, (List.dropLast_concat_getLast hne).symm⟩
   have hl1 : l1.length = data.length := by rw [hl] at hL; simp at hL; exact hL
   have hsrc1 : Item.poison ∉ l1 := fun e => hsrc (by rw [hl]; exact List.mem_append_left _ e)
-  rw [hr, hl, outFrom_append, src_out_vals l1 0 hsrc1 (by omega), hl1]
-  simp only [List.drop_zero, List.take_length, Nat.zero_add]
+  rw [hr, hl, outFrom_append, src_out_vals l1 [] hsrc1 (by simp; omega), hl1]
+  simp only [List.length_nil, List.drop_zero, List.take_length, List.nil_append]
   congr 1
   cases x with
   | poison => rfl
-  | val v => simp [outOf, bodyP]
+  | val v => simp [outOf, bodyP, hl1]
 
 /-- when a stage and its successor have finished, the queue between them is empty: the successor has
 received everything the stage produced -/
@@ -447,7 +448,7 @@ theorem RInv.handed_over (h : RInv b m data c) {i : Nat} (hi : i < m)
     (hf : (c.st (i + 1)).pc = .finished) : c.q (i + 1) = [] ∧ (c.st (i + 1)).inp = (c.st i).out := by
   have ok := h.sok (i + 1) (by omega)
   have hp : Item.poison ∈ (c.st (i + 1)).out := ok.fin.mp hf
-  have : Item.poison ∈ outFrom m data (i + 1) 0 (c.st (i + 1)).inp := by
+  have : Item.poison ∈ outFrom m data (i + 1) [] (c.st (i + 1)).inp := by
     rw [← ok.r]; exact List.mem_append_left _ hp
   have hin := outFrom_poison_mem (by omega) this
   have hq := h.q i hi
@@ -461,5 +462,86 @@ theorem RInv.handed_over (h : RInv b m data c) {i : Nat} (hi : i < m)
     exact List.mem_append_left _ hin
   rw [hqe, List.append_nil] at hq
   exact ⟨hqe, hq.symm⟩
+
+/-! ### stateful stream transducers as stages -/
+
+/-- one deterministic, possibly stateful, stream transducer per stage: `step i : state × block → state × block` -/
+structure Transducers (τ : Type) where
+  init : Nat → τ
+  step : Nat → τ → Nat → τ × Nat
+
+namespace Transducers
+variable {τ : Type} (T : Transducers τ)
+
+/-- the output stream of transducer `i` started in state `s` -/
+def run (i : Nat) : τ → List Nat → List Nat
+  | _, [] => []
+  | s, v :: vs => (T.step i s v).2 :: run i (T.step i s v).1 vs
+
+def stateAfter (i : Nat) (s : τ) (vs : List Nat) : τ := vs.foldl (fun s v => (T.step i s v).1) s
+
+end Transducers
+
+/-- the contents of the (non-poison) blocks of a sequence of items -/
+def valsOf : List Item → List Nat
+  | [] => []
+  | .val v :: l => v :: valsOf l
+  | .poison :: l => valsOf l
+
+theorem valsOf_append (a b : List Item) : valsOf (a ++ b) = valsOf a ++ valsOf b := by
+  induction a with
+  | nil => rfl
+  | cons x l ih => cases x <;> simp [valsOf, ih]
+
+/-- the stage functions realised by the transducers: the loop body of stage `i` keeps the transducer state, i.e.
+computes its output from the current block and the state reached on the blocks received before -/
+@[reducible] def Transducers.toStageFn {τ : Type} (T : Transducers τ) : StageFn :=
+  ⟨fun i hist v => (T.step i (T.stateAfter i (T.init i) (valsOf hist)) v).2⟩
+
+/-- source data pushed through the transducers of stages `1..i` -/
+def Transducers.pipeline {τ : Type} (T : Transducers τ) (data : List Nat) : Nat → List Nat
+  | 0 => data
+  | i + 1 => T.run (i + 1) (T.init (i + 1)) (Transducers.pipeline T data i)
+
+section transducer
+variable {τ : Type} (T : Transducers τ)
+
+theorem stateAfter_snoc (i : Nat) (s : τ) (vs : List Nat) (v : Nat) :
+    T.stateAfter i s (vs ++ [v]) = (T.step i (T.stateAfter i s vs) v).1 := by
+  simp [Transducers.stateAfter, List.foldl_append]
+
+/-- the blocks a stage has produced carry exactly the output of its transducer on the blocks it has received -/
+theorem valsOf_outFrom {m : Nat} {data : List Nat} {i : Nat} (hi0 : i ≠ 0) (him : i ≠ m) (pre l : List Item) :
+    valsOf (@outFrom T.toStageFn m data i pre l)
+      = T.run i (T.stateAfter i (T.init i) (valsOf pre)) (valsOf l) := by
+  induction l generalizing pre with
+  | nil => rfl
+  | cons x l ih =>
+    cases x with
+    | poison =>
+      have := ih (pre ++ [Item.poison])
+      simp only [valsOf_append, valsOf, List.append_nil] at this
+      simp only [outFrom, outOf, valsOf, this]
+    | val v =>
+      have := ih (pre ++ [Item.val v])
+      simp only [valsOf_append, valsOf, stateAfter_snoc] at this
+      simp only [outFrom, outOf, bodyP, hi0, him, if_false, valsOf, Transducers.run, this]
+      rfl
+
+/-- on a complete input (blocks then poison) a stage produces its transducer's output then poison -/
+theorem outFrom_complete {m : Nat} {data : List Nat} {i : Nat} (hi0 : i ≠ 0) (him : i ≠ m) (pre : List Item)
+    (vs : List Nat) :
+    @outFrom T.toStageFn m data i pre (vs.map Item.val ++ [Item.poison])
+      = (T.run i (T.stateAfter i (T.init i) (valsOf pre)) vs).map Item.val ++ [Item.poison] := by
+  induction vs generalizing pre with
+  | nil => simp [outFrom, outOf, Transducers.run]
+  | cons v vs ih =>
+    have := ih (pre ++ [Item.val v])
+    simp only [valsOf_append, valsOf, stateAfter_snoc] at this
+    simp only [List.map_cons, List.cons_append, outFrom, outOf, bodyP, hi0, him, if_false, this,
+      Transducers.run]
+    rfl
+
+end transducer
 
 end KV.Chain
